@@ -55,6 +55,18 @@ theorem maps_derived :
         = (List.range 96).zip ((interleavingIndices.filter (fun e => !e.2.2.2.2.1 && !e.2.2.2.2.2)).map (fun e => e.1)) := by
   decide +kernel
 
+/-- the placement is that of ETSI TS 102 361-1 B.1.1 (written out here, independently of `/repo`): bit `k` of the
+13 × 15 arrangement — `R(3)` first, then rows 1..13 of 15 cells — is transmitted at position `k · 181 mod 196`;
+`R(3)` and the first three cells of row 1 are reserved, columns 11..14 hold the row Hamming(15,11,3) bits and rows
+10..13 the column Hamming(13,9,3) bits.  Every round trip of the library with itself holds for any consistent
+placement; that the placement is the standard's is this fact. -/
+theorem tables_etsi :
+    interleavingIndices = (List.range 196).map (fun k =>
+      if k = 0 then (0, 0, 0, 0, true, false)
+      else (k, k * 181 % 196, (k - 1) / 15 + 1, (k - 1) % 15, decide (k < 4),
+            decide (11 ≤ (k - 1) % 15) || decide (10 ≤ (k - 1) / 15 + 1))) := by
+  decide +kernel
+
 /-- all positions are inside the 196-bit buffers and the 13×15 table (no Python `IndexError`) -/
 theorem tables_in_range :
     interleavingIndices.all (fun e => decide (e.1 < 196) && decide (e.2.1 < 196)
